@@ -122,6 +122,8 @@ class Gen:
         elif isinstance(t, Fock):
             g = r.choice(FOCK1 if self.focus in ("C10", "C12") else FOCK1[:4] + ["Creation", "PhaseShift"] + (["Displace", "Squeeze"] if r.random() < 0.25 else []))
             st["gate"] = g
+            if not self.guard_ok(w, t):
+                return None
             D, d = self.joint_dim(w), dims_of(t)
             rest = D // max(d, 1)
             if g == "Creation" and rest * (max(d, self.support(t) + 2) + 1) > self.CAP:
@@ -170,6 +172,8 @@ class Gen:
         g = r.choice(opts)
         if g == "BS":
             ts = r.sample(focks, 2)
+            if not all(self.guard_ok(w, t) for t in ts):
+                return None
             tot = sum(self.support(t) for t in ts) + 1
             rest = self.joint_dim(w) // max(1, dims_of(ts[0]) * dims_of(ts[1]))
             if tot > 5 or rest * max(tot, dims_of(ts[0])) * max(tot, dims_of(ts[1])) > self.CAP:
@@ -187,6 +191,28 @@ class Gen:
             return int(t._num_quanta)
         except Exception:
             return 3
+
+    def true_support(self, w, t):
+        """highest occupied level of a Fock according to the joint state (not the library's own
+        estimate, which is computed from amplitude sums at vector level)"""
+        sids, dims, rho = joint(w)
+        k = sids.index(w.sid(t))
+        n = len(dims)
+        d = np.real(np.diag(rho)).reshape(dims)
+        marg = d.sum(axis=tuple(a for a in range(n) if a != k)) if n > 1 else d
+        nz = np.nonzero(marg > 1e-14)[0]
+        return int(nz[-1]) if len(nz) else 0
+
+    def guard_ok(self, w, t):
+        """known finding K-C01-guard: for a Fock stored in a vector-level envelope / product space the
+        library computes the highest occupied level from amplitude sums over the other members;
+        when these cancel the estimate is wrong (or raises IndexError). Such cells are not entered."""
+        if not isinstance(t, Fock) or t.index is None or not self.avoid_known:
+            return True
+        try:
+            return int(t._num_quanta) == self.true_support(w, t)
+        except Exception:
+            return False
 
     def kraus(self, w):
         r = self.rng
@@ -406,6 +432,8 @@ class Gen:
         if not cands:
             return None
         t = r.choice(cands)
+        if not self.guard_ok(w, t):
+            return None
         en = r.choice(self.entries_for(w, t))
         d = dims_of(t)
         new = max(1, d + r.choice([-2, -1, -1, 1, 2, 3]))
@@ -453,7 +481,7 @@ class Gen:
             if isinstance(t, CustomState) and en == "env":
                 st["entry"] = "state"
         elif what == "shrink_below_support":
-            fs = [f for f in self.live(w, Fock) if self.support(f) >= 1]
+            fs = [f for f in self.live(w, Fock) if self.support(f) >= 1 and self.guard_ok(w, f)]
             if not fs:
                 return None
             t = r.choice(fs)
@@ -462,7 +490,7 @@ class Gen:
             if en == "ce":
                 st["h"] = self.handle_of(w, t)
         elif what == "annihilate_vacuum":
-            fs = [f for f in self.live(w, Fock) if self.support(f) == 0]
+            fs = [f for f in self.live(w, Fock) if self.support(f) == 0 and self.guard_ok(w, f)]
             if not fs:
                 return None
             t = r.choice(fs)
@@ -483,6 +511,45 @@ class Gen:
             else:
                 st = {"kind": "kraus", "targets": [w.sid(t)], "entry": "state", "ops": [mj(np.eye(2))]}
         return st
+
+    def prelude(self, w):
+        """0-3 layout-building steps from templates, so that interesting storage layouts (combined
+        envelope stored polarization-first, matrix-level / mixed product spaces, several product
+        spaces) are reached at the start of many programs and not only by luck"""
+        r = self.rng
+        out = []
+        envs = [i for i, e in enumerate(w.envs)]
+        if envs and r.random() < 0.45:
+            i = r.choice(envs)
+            e = w.envs[i]
+            fs, ps = w.sid(e.fock), w.sid(e.polarization)
+            out.append({"kind": "struct", "what": "env_combine", "env": i})
+            k = r.random()
+            if k < 0.45:
+                out.append({"kind": "struct", "what": "env_reorder", "env": i, "targets": [ps, fs]})
+            elif k < 0.7:
+                out.append({"kind": "op", "targets": [ps], "entry": "env", "gate": r.choice(["H", "S", "RY"]), **({"params": {"theta": 1.3}})})
+                if out[-1]["gate"] != "RY":
+                    out[-1].pop("params")
+            if r.random() < 0.3:
+                out.append({"kind": "struct", "what": "expand", "entry": "env", "targets": [fs]})
+        if w.handles and r.random() < 0.4:
+            hi = r.randrange(len(w.handles))
+            mem = [s for s in w.handles[hi].state_objs]
+            if len(mem) >= 2:
+                ts = r.sample(mem, min(len(mem), r.choice([2, 2, 3])))
+                # do not pull a member of an envelope combined above into this space: keep both layouts
+                out.append({"kind": "struct", "what": "ce_combine", "h": hi, "targets": [w.sid(x) for x in ts]})
+                if r.random() < 0.35:
+                    out.append({"kind": "struct", "what": "expand", "entry": "ce", "h": hi, "targets": [w.sid(ts[0])]})
+        if r.random() < 0.25:
+            pols = [s for s in w.subs if isinstance(s, Polarization)]
+            if pols:
+                t = r.choice(pols)
+                ops = rand_kraus(self.rs, 2, 2)
+                out.append({"kind": "kraus", "targets": [w.sid(t)], "entry": "state", "ops": [mj(K) for K in ops]})
+        r.shuffle(out) if r.random() < 0.2 else None
+        return out
 
     WEIGHTS = {
         "C01": dict(op1=8, opn=2, kraus=1, measure=0.5, struct=3, resize=0.5),
